@@ -10,6 +10,12 @@
 #    (one per table), each compared separately.
 #  * staleness: an entry is stale when it was last added/replaced more than maxAge ago.  The harness never depends on
 #    the clock: it rewinds LastUpdate by two hours ("AgeAll") and calls CleanupStale*(1h).
+#  * cleanup exactness (every stale foreign route goes, also one that sits behind a fresh lower-metric route of the same
+#    key; nothing else goes) is decided here, not by C08: a stale route that survives is still "stored", so C08's
+#    lookup statement is not broken by it.  The check refuses to run (exit 2) if that case is missing from the replayed
+#    model of any of the four tables.
+#  * sequences are compared as plain unsigned 64-bit numbers; the harness maps the abstract sequences order-preservingly
+#    into {0,1,2, 2^63-1, 2^63, 2^63+1, 2^64-2, 2^64-1} so that differences above 2^63 occur inside one table.
 #  * "locally originated" = origin is the local agent (Manager.AddLocal*/AddDynamicRoute).
 #  * the spec follows the code for everything the statement leaves open (result values, manager-local maps, which of
 #    several equal-metric agent routes RemoveRoute drops: any of them); a disagreement there is reported as a C10
@@ -21,6 +27,10 @@ def run(ctx):
     cfgs = ["cidr-mt", "dom-mt", "fwd-mt", "agt-mt", "cidr-loc", "fwd-loc"] if ctx.quick() else \
            ["cidr-mtT", "dom-mtT", "fwd-mtT", "agt-mtT", "agt-lk", "cidr-loc", "cidr-locT", "dom-loc", "fwd-loc"]
     results, caught = R.model_and_sensitivity(ctx, "C10", cfgs)
+    behind = R.cleanup_behind_fresh_head(results)
+    if behind != {"cidr", "dom", "fwd", "agt"}:
+        raise vf.Infra("the replayed model lacks the case 'Cleanup removes a stale route behind a fresh head of the same "
+                       "key' for %s" % sorted({"cidr", "dom", "fwd", "agt"} - behind))
     summ, mism, lkmism, tot = R.replay(ctx, results)
     foreign = R.report_replay(ctx, "C10", mism, lkmism)
     ntr, nops, chunks = (60, 250) + (1,) if ctx.quick() else (20, 1000) + (8,)
@@ -41,5 +51,5 @@ def run(ctx):
                                                 "mismatches", "lkmismatches", "lookups")} for n, s in summ.items()},
                  nondeterministic_pairs=tot["nondet_groups"],
                  trace_events=tsum["events"], trace_events_matched=tsum["highwater_total"], trace_event_counts=tsum["counts"],
-                 deviations_caught=caught, findings_of_sibling_properties_seen=foreign,
+                 cleanup_behind_fresh_head_replayed=sorted(behind), deviations_caught=caught, findings_of_sibling_properties_seen=foreign,
                  samples=[{"replay_walk": summ[cfgs[0]]["sample"]}, {"trace_events": tsum["sample"]}])
